@@ -111,7 +111,7 @@ fn eval_named(p: &Program<Name>, args: &[J], language: &Language, detailed: bool
                 let mut o = json!({"err": variant_name(&format!("{e:?}"))});
                 if detailed {
                     let mut m = e.to_string();
-                    m.truncate(200);
+                    vh::util::trunc(&mut m, 200);
                     o["err_msg"] = json!(m);
                 }
                 o
@@ -147,7 +147,7 @@ fn outcome_key(o: &J) -> String {
 
 fn type_error_json(variant: &str, dbg: &str) -> J {
     let mut m = dbg.to_string();
-    m.truncate(1500);
+    vh::util::trunc(&mut m, 1500);
     json!({"variant": variant, "debug": m})
 }
 
@@ -162,7 +162,7 @@ fn add_modules(job: &J, infer_tracing: Tracing) -> Result<MemProject, J> {
             Ok(Ok(())) => {}
             Ok(Err(AddError::Parse(e))) => {
                 let mut e = e;
-                e.truncate(800);
+                vh::util::trunc(&mut e, 800);
                 return Err(json!({"rejected": "parse", "module": name, "detail": e}));
             }
             Ok(Err(AddError::Type(v, d))) => {
@@ -337,7 +337,7 @@ fn infer_item(project: &mut MemProject, m: &J, tracing: Tracing, register: bool)
         Err(p) => return json!({"rejected": "panic", "stage": "parse", "panic": p}),
         Ok(Err(e)) => {
             let mut d = format!("{e:?}");
-            d.truncate(600);
+            vh::util::trunc(&mut d, 600);
             return json!({"rejected": "parse", "detail": d});
         }
         Ok(Ok(x)) => x,
@@ -359,7 +359,7 @@ fn infer_item(project: &mut MemProject, m: &J, tracing: Tracing, register: bool)
         .iter()
         .map(|w| {
             let mut d = format!("{w:?}");
-            d.truncate(300);
+            vh::util::trunc(&mut d, 300);
             json!({"variant": variant_name(&d), "debug": d})
         })
         .collect();
@@ -384,7 +384,7 @@ fn infer_item(project: &mut MemProject, m: &J, tracing: Tracing, register: bool)
                 }
                 _ => {
                     let mut d = dbg.clone();
-                    d.truncate(600);
+                    vh::util::trunc(&mut d, 600);
                     j["debug"] = json!(d);
                 }
             }
@@ -447,7 +447,7 @@ fn main() {
                 if line.trim().is_empty() {
                     continue;
                 }
-                let job: J = match serde_json::from_str(&line) {
+                let job: J = match vh::util::parse_job(&line) {
                     Ok(j) => j,
                     Err(e) => {
                         let mut o = stdout.lock();
@@ -462,6 +462,10 @@ fn main() {
                     "infer_many" => op_infer_many(&job),
                     "fmt" => vh::surface::op_fmt(&job),
                     "schema" => vh::schema::op_schema(&job),
+                    "blueprint" => vh::bp::op_blueprint(&job),
+                    "apply" => vh::bp::op_apply(&job),
+                    "apply_raw" => vh::bp::op_apply_raw(&job),
+                    "json_load" => vh::bp::op_json_load(&job),
                     o => Err(format!("unknown op {o}")),
                 });
                 let mut res = match r {
